@@ -1,7 +1,7 @@
 (* C13 -- INCLUDE resolution is transparent; unresolved includes are kept (item-level model).
    Theorems only. *)
 From Coq Require Import List Bool Arith.
-From FV Require Import Include IncludeLaws.
+From FV Require Import Include IncludeLaws IncludeSplice.
 Import ListNotations.
 
 (* Push-back inside any nest of include readers: the item goes to the innermost reader, reading
@@ -34,9 +34,29 @@ Proof. exact unresolved_include_kept. Qed.
 Goal True. idtac "ASSUMPTIONS-OF C13_unresolved_include_kept". Abort.
 Print Assumptions C13_unresolved_include_kept.
 
-(* Transparency, computed for a three-level nest with an unresolvable include and an empty file:
-   reading equals textual inlining.  (The general statement -- for every nest -- is checked against the
-   real reader by the correspondence; it is not proved: C13_splice_partial is this instance.) *)
+(* Transparency, for EVERY nest of include files (any depth, any number of files, unresolvable
+   includes and empty files among them, as long as no file includes itself: every chain of
+   resolvable includes ends within some depth S d): reading the main source through the nest of
+   readers delivers exactly the textual inlining of the files, item by item, in order -- and an
+   unresolvable INCLUDE line stays in the stream at its position.  Item level: the items themselves
+   (statements) are opaque. *)
+Theorem C13_reading_is_textual_inlining :
+  forall (fs : fsys) d items fuel,
+    expandable fs (S d) items = true -> 1 + wt fs (S d) items < fuel ->
+    aread fuel fs [mkArdr [] items] = expand (S d) fs items.
+Proof. exact read_is_inlining. Qed.
+Goal True. idtac "ASSUMPTIONS-OF C13_reading_is_textual_inlining". Abort.
+Print Assumptions C13_reading_is_textual_inlining.
+
+(* the same from any state of the nest of readers (after any read-ahead and push-back) *)
+Theorem C13_reading_is_textual_inlining_any_state :
+  forall (fs : fsys) d fuel st, all_ok fs (S d) st -> mu fs (S d) st < fuel ->
+    aread fuel fs st = den fs (S d) st.
+Proof. exact aread_is_inlining. Qed.
+Goal True. idtac "ASSUMPTIONS-OF C13_reading_is_textual_inlining_any_state". Abort.
+Print Assumptions C13_reading_is_textual_inlining_any_state.
+
+(* an instance: a three-level nest with an unresolvable include and an empty file *)
 Definition fs_ex (f : nat) : option (list aitem) :=
   match f with
   | 1 => Some [AStmt 10; AInc 2; AStmt 11]
@@ -45,10 +65,11 @@ Definition fs_ex (f : nat) : option (list aitem) :=
   | 4 => Some []
   | _ => None
   end.
-Example C13_splice_partial :
+Example C13_splice_example :
   let main := [AStmt 1; AInc 1; AInc 4; AStmt 2; AInc 3] in
+  expandable fs_ex 3 main = true /\
   aread 60 fs_ex [mkArdr [] main] = expand 3 fs_ex main
   /\ expand 3 fs_ex main = [AStmt 1; AStmt 10; AStmt 20; AStmt 30; AInc 9; AStmt 21; AStmt 11; AStmt 2; AStmt 30].
-Proof. vm_compute. split; reflexivity. Qed.
-Goal True. idtac "ASSUMPTIONS-OF C13_splice_partial". Abort.
-Print Assumptions C13_splice_partial.
+Proof. vm_compute. repeat split; reflexivity. Qed.
+Goal True. idtac "ASSUMPTIONS-OF C13_splice_example". Abort.
+Print Assumptions C13_splice_example.
